@@ -330,6 +330,17 @@ func ruleEscapeSet(r *Run) {
 		r.undecided("encodeGrpcMessage/escape-site", fn.Pos(), "no call formatting the byte under test found")
 		return
 	}
+	// the escape is "%" followed by exactly two hex digits: a format verb without zero padding (%x) writes one digit
+	// for bytes below 0x10 and the receiver decodes another message
+	if ec, ok := escape.(ssa.CallInstruction); ok {
+		for _, a := range ec.Common().Args {
+			if f, isS := constString(a); isS && strings.Contains(f, "%") {
+				good := strings.Contains(f, "%%%02x") || strings.Contains(f, "%%%02X")
+				r.check(good, "encodeGrpcMessage/escape-format", escape.Pos(), "escaped bytes are written as % and two hex digits",
+					fmt.Sprintf("the escape format is %q, not %%%%%%02x: bytes below 0x10 (tab, newline, …) are written with a single hex digit and the client's percent-decoding yields a different grpc-message", f))
+			}
+		}
+	}
 	start := cv.(ssa.Instruction)
 	var missing []string
 	undecided := false
